@@ -61,13 +61,16 @@ Definition length_lt (a b : option Z) : bool :=     (* impl PartialOrd for Lengt
 Definition qos_consistent (q : qos) : bool :=
   negb (length_lt (q_max_samples q) (q_mspi q)) &&
   match q_hist q with
-  | KeepLast d => match q_mspi q with None => true | Some m => negb (usize_of_i32 m <? d) end
+  | KeepLast d => negb (d =? 0) &&
+                  match q_mspi q with None => true | Some m => negb (usize_of_i32 m <? d) end
   | KeepAll => true
   end.
 
 (* ---------------------------------------------------------------- state *)
-(* RegisteredInstanceInfo *)
-Record inst : Type := mkInst { i_h : Z; i_lwt : option Z; i_samples : list Z }.
+(* RegisteredInstanceInfo; i_reg = `registered`: false once unregister_instance was called and
+   for the record a first write pushes before it succeeds (the record itself is kept because its
+   samples count against the resource limits) *)
+Record inst : Type := mkInst { i_h : Z; i_lwt : option Z; i_samples : list Z; i_reg : bool }.
 
 (* CacheChange of the RTPS history; c_slot is ghost: the number of the write call that produced
    an ALIVE change (its payload in the harness), -1 for dispose/unregister changes *)
@@ -121,6 +124,14 @@ Fixpoint upd_inst (h : Z) (f : inst -> inst) (l : list inst) : list inst :=
   | [] => []
   | i :: t => if i_h i =? h then f i :: t else i :: upd_inst h f t
   end.
+(* iter_mut().find(|x| x.instance_handle == h && x.registered) followed by an update *)
+Fixpoint upd_reg (h : Z) (f : inst -> inst) (l : list inst) : list inst :=
+  match l with
+  | [] => []
+  | i :: t => if (i_h i =? h) && i_reg i then f i :: t else i :: upd_reg h f t
+  end.
+(* .any(|x| x.instance_handle == h && x.registered) *)
+Definition is_reg (h : Z) (l : list inst) : bool := existsb (fun i => (i_h i =? h) && i_reg i) l.
 Definition zlen {A} (l : list A) : Z := Z.of_nat (length l).
 Definition total_samples (l : list inst) : Z := fold_left (fun acc i => acc + zlen (i_samples i)) l 0.
 
@@ -132,23 +143,22 @@ Definition remove_change (sn : Z) (l : list change) : list change :=
   filter (fun c => negb (c_sn c =? sn)) l.
 
 (* ------------------------------------------- DataWriterEntity::write_w_timestamp *)
-(* registered_instance_info.iter().any(..) / push / OutOfResources *)
-Definition inst_for_write (q : qos) (h : Z) (l : list inst) : option (list inst) :=
-  if has_inst h l then Some l
-  else if len_lt (zlen l) (q_max_instances q) then Some (l ++ [mkInst h None []])
-  else None.
+(* the samples recorded for an instance (none if there is no record):
+   .find(..).map(|s| s.samples.len()).unwrap_or(0) *)
+Definition samples_of (h : Z) (l : list inst) : list Z :=
+  match find_inst h l with Some s => i_samples s | None => [] end.
+
+(* All resource limits are tested before anything is stored. *)
+(* is_new_instance && !(len < max_instances) *)
+Definition inst_refused (q : qos) (h : Z) (l : list inst) : bool :=
+  negb (has_inst h l) && negb (len_lt (zlen l) (q_max_instances q)).
 (* the max_samples_per_instance test; skipped when KEEP_LAST(depth) already guarantees it *)
-Definition inst_full (m : Z) (h : Z) (l : list inst) : bool :=
-  match find_inst h l with
-  | Some s => usize_of_i32 m <=? zlen (i_samples s)
-  | None => false
-  end.
 Definition mspi_hit (q : qos) (h : Z) (l : list inst) : bool :=
   match q_mspi q with
   | Some m =>
     match q_hist q with
-    | KeepLast d => if wrap_i32 d <=? m then false else inst_full m h l
-    | KeepAll => inst_full m h l
+    | KeepLast d => if wrap_i32 d <=? m then false else usize_of_i32 m <=? zlen (samples_of h l)
+    | KeepAll => usize_of_i32 m <=? zlen (samples_of h l)
     end
   | None => false
   end.
@@ -158,13 +168,22 @@ Definition ms_hit (q : qos) (l : list inst) : bool :=
   | Some ms => usize_of_i32 ms <=? total_samples l
   | None => false
   end.
-(* last_write_time update and samples.push_back(sn) *)
+(* the resource-limit rule of write_w_timestamp: a new instance when max_instances records exist,
+   or max_samples_per_instance samples of the instance, or max_samples samples in total *)
+Definition would_exceed (q : qos) (h : Z) (l : list inst) : bool :=
+  inst_refused q h l || mspi_hit q h l || ms_hit q l.
+
+(* the record of a new instance is pushed only now, not yet registered *)
+Definition inst_for_write (h : Z) (l : list inst) : list inst :=
+  if has_inst h l then l else l ++ [mkInst h None [] false].
+(* last_write_time update, samples.push_back(sn), registered = true *)
 Definition record_sample (ts sn : Z) (i : inst) : inst :=
   mkInst (i_h i)
          (match i_lwt i with
           | Some l => if l <? ts then Some ts else Some l
           | None => Some ts end)
-         (i_samples i ++ [sn]).
+         (i_samples i ++ [sn])
+         true.
 (* lifespan early return: sample_timestamp - now + lifespan <= 0 *)
 Definition expired (q : qos) (ts now : Z) : bool :=
   match q_lifespan q with
@@ -175,18 +194,15 @@ Definition expired (q : qos) (ts now : Z) : bool :=
 (* returns the new state and 0 (Ok) or the error code *)
 Definition ent_write (w : writer) (h ts now slot : Z) : writer * Z :=
   let q := w_qos w in
-  match inst_for_write q h (w_insts w) with
-  | None => (w, E_OUT_OF_RESOURCES)
-  | Some insts1 =>
-    let w1 := set_insts w insts1 in
-    if mspi_hit q h insts1 then (w1, E_OUT_OF_RESOURCES) else
-    if ms_hit q insts1 then (w1, E_OUT_OF_RESOURCES) else
-    let sn := w_last_sn w + 1 in
-    let w2 := set_insts (set_last_sn w1 sn) (upd_inst h (record_sample ts sn) insts1) in
-    (* the sequence number is already recorded in the instance when the lifespan test returns *)
-    if expired q ts now then (w2, 0)
-    else (set_changes w2 (w_changes w ++ [mkCh sn K_ALIVE h ts slot]), 0)
-  end.
+  if inst_refused q h (w_insts w) then (w, E_OUT_OF_RESOURCES) else
+  if mspi_hit q h (w_insts w) then (w, E_OUT_OF_RESOURCES) else
+  if ms_hit q (w_insts w) then (w, E_OUT_OF_RESOURCES) else
+  let insts1 := inst_for_write h (w_insts w) in
+  let sn := w_last_sn w + 1 in
+  let w2 := set_insts (set_last_sn w sn) (upd_inst h (record_sample ts sn) insts1) in
+  (* the sequence number is already recorded in the instance when the lifespan test returns *)
+  if expired q ts now then (w2, 0)
+  else (set_changes w2 (w_changes w ++ [mkCh sn K_ALIVE h ts slot]), 0).
 
 (* ------------------------------ the KEEP_LAST front of writer_methods::write_w_timestamp *)
 (* Some(front) iff the instance exists and holds exactly `depth` samples *)
@@ -201,7 +217,7 @@ Definition pop_front (w : writer) (h : Z) : writer :=
   | Some s =>
     match i_samples s with
     | sn :: rest =>
-      set_changes (set_insts w (upd_inst h (fun i => mkInst (i_h i) (i_lwt i) (tl (i_samples i))) (w_insts w)))
+      set_changes (set_insts w (upd_inst h (fun i => mkInst (i_h i) (i_lwt i) (tl (i_samples i)) (i_reg i)) (w_insts w)))
                   (remove_change sn (w_changes w))
     | [] => w
     end
@@ -246,31 +262,32 @@ Definition svc_register (w : writer) (k ts : Z) : writer * rsl :=
   if negb (w_keyed w) then (w, RErr E_ILLEGAL_OPERATION) else
   let h := hof w k in
   if has_inst h (w_insts w) then
-    (set_insts w (upd_inst h (fun i => mkInst (i_h i) (Some ts) (i_samples i)) (w_insts w)), RHandle (Some h))
+    (set_insts w (upd_inst h (fun i => mkInst (i_h i) (Some ts) (i_samples i) true) (w_insts w)), RHandle (Some h))
   else if len_lt (zlen (w_insts w)) (q_max_instances (w_qos w)) then
-    (set_insts w (w_insts w ++ [mkInst h (Some ts) []]), RHandle (Some h))
+    (set_insts w (w_insts w ++ [mkInst h (Some ts) [] true]), RHandle (Some h))
   else (w, RErr E_OUT_OF_RESOURCES).
 
-(* DataWriterEntity::unregister_w_timestamp / dispose_w_timestamp *)
-Definition svc_unreg_or_dispose (kind : Z) (w : writer) (k ts : Z) : writer * rsl :=
+(* DataWriterEntity::unregister_w_timestamp / dispose_w_timestamp: the instance must have a
+   record that is registered; unregister clears `registered` *)
+Definition svc_unreg_or_dispose (kind : Z) (keep_reg : bool) (w : writer) (k ts : Z) : writer * rsl :=
   if negb (w_enabled w) then (w, RErr E_NOT_ENABLED) else
   if negb (w_keyed w) then (w, RErr E_ILLEGAL_OPERATION) else
   let h := hof w k in
-  if has_inst h (w_insts w) then
-    let insts' := upd_inst h (fun i => mkInst (i_h i) None (i_samples i)) (w_insts w) in
+  if is_reg h (w_insts w) then
+    let insts' := upd_reg h (fun i => mkInst (i_h i) None (i_samples i) (keep_reg && i_reg i)) (w_insts w) in
     let sn := w_last_sn w + 1 in
     (set_changes (set_insts (set_last_sn w sn) insts') (w_changes w ++ [mkCh sn kind h ts (-1)]), ROk)
   else (w, RErr E_BAD_PARAMETER).
 Definition svc_unregister (w : writer) (k ts : Z) : writer * rsl :=
-  svc_unreg_or_dispose (if q_autodispose (w_qos w) then K_DISPOSED_UNREGISTERED else K_UNREGISTERED) w k ts.
+  svc_unreg_or_dispose (if q_autodispose (w_qos w) then K_DISPOSED_UNREGISTERED else K_UNREGISTERED) false w k ts.
 Definition svc_dispose (w : writer) (k ts : Z) : writer * rsl :=
-  svc_unreg_or_dispose K_DISPOSED w k ts.
+  svc_unreg_or_dispose K_DISPOSED true w k ts.
 
 (* DcpsDomainParticipant::lookup_instance (no topic-kind test in the code) *)
 Definition svc_lookup (w : writer) (k : Z) : rsl :=
   if negb (w_enabled w) then RErr E_NOT_ENABLED else
   let h := hof w k in
-  RHandle (if has_inst h (w_insts w) then Some h else None).
+  RHandle (if is_reg h (w_insts w) then Some h else None).
 
 (* ------------------------------------------------------- worker-loop tail *)
 (* a completed parked write: (slot, 0 | error code, completion time) *)
@@ -402,29 +419,6 @@ Fixpoint run (w : writer) (l : list ev) : writer * list out :=
   | e :: t => let '(w1, o) := step w e in let '(w2, os) := run w1 t in (w2, o :: os)
   end.
 Definition run_state (w : writer) (l : list ev) : writer := fold_left (fun s e => fst (step s e)) l w.
-
-(* the samples recorded for an instance (none if there is no record) *)
-Definition samples_of (h : Z) (l : list inst) : list Z :=
-  match find_inst h l with Some s => i_samples s | None => [] end.
-
-(* the resource-limit rule of write_w_timestamp, stated on the state before the call:
-   a new instance when max_instances records exist, or max_samples_per_instance samples of the
-   instance (the test is skipped when KEEP_LAST(depth <= limit) already guarantees it), or
-   max_samples samples in total *)
-Definition would_exceed (q : qos) (h : Z) (l : list inst) : bool :=
-  (negb (has_inst h l) && negb (len_lt (zlen l) (q_max_instances q))) ||
-  match q_mspi q with
-  | Some m =>
-    match q_hist q with
-    | KeepLast d => if wrap_i32 d <=? m then false else usize_of_i32 m <=? zlen (samples_of h l)
-    | KeepAll => usize_of_i32 m <=? zlen (samples_of h l)
-    end
-  | None => false
-  end ||
-  match q_max_samples q with
-  | Some ms => usize_of_i32 ms <=? total_samples l
-  | None => false
-  end.
 
 (* slots of the ALIVE changes of the RTPS history (what a late-joining TRANSIENT_LOCAL reader is sent) *)
 Definition alive_slots (w : writer) : list Z :=
